@@ -203,8 +203,8 @@ fn ops(cfg: &Cfg, s: &State) -> Vec<Op> {
     }
     let mut v = vec![];
     if s.hist.is_empty() {
-        for &h in &cfg.event_heights {
-            if h <= 2 {
+        for &h in cfg.event_heights.iter().take(2) {
+            if h <= 3 {
                 v.push(Op::Boot { h: h as u8 });
             }
         }
@@ -572,29 +572,55 @@ fn viol_pair(k: &str, what: String) -> (String, String) {
     (k.to_string(), what)
 }
 
-const RULE: &str = "histories of operations on a fresh PoolTracker<InMemoryStore> (empty store), all histories up to the depth bound, breadth first: \
-Boot{h in {1,2}} (first operation only: header h stored and poll until pending), Hdr{h} (header h arrives; any order the store's adjacency rule admits), \
-Add{peer, hash, h} = add_peer_for_hash with hash in {data hash of header h, X (no header has it), data hash of another height, empty-square hash}, Poll (poll until Pending), Timeout (paused clock +120 s); \
-h ranges over the event heights {1,2,11,12} (quick) / {1,2,3,11,12,13} (thorough) of one 14-header chain in which heights 1,2,14 are empty blocks (same data hash) and heights 3 and 12 carry the same non-empty square; 3 peers, \
-introduced in index order (peer symmetry); after every operation get_pool(h) is asked for every h in 0..=15. Depth 8 (quick) / 9 (thorough, or less when the state/wall cap binds: see caps_hit). \
-state = distinct (tracker private state via verif_snapshot, stored heights, oracle bookkeeping); transition = one operation replayed on the real tracker; non-trivial state = at least one height is tracked (candidates or validated).";
+const RULE: &str = "histories of operations on a fresh PoolTracker<InMemoryStore> (empty store), ALL histories up to the depth bound, breadth first, operations: \
+Boot{h} (first operation only, h one of the two lowest event heights if <= 3: header h stored and poll until pending, as the unit tests' setup does), Hdr{h} (header h arrives; any order the store's adjacency rule admits), \
+Add{peer, hash, h} = add_peer_for_hash, Poll (poll until Pending), Timeout (paused clock +120 s); after every operation get_pool(h) is asked for every h in 0..=15. \
+One 14-header chain: heights 1,2,14 are empty blocks (same data hash), heights 3 and 12 carry the same non-empty square, all others differ. \
+Searches: quick = event heights {1,2,11}, 2 peers, hash in {data hash of header h, X (no header has it)}, depth 7. \
+thorough = (a) the same alphabet to depth 8; (b) event heights {3,12,13}, 2 peers, {right, X}, depth 8; (c) event heights {1,2,3,11,12,13}, 3 peers, hash in {right, X, data hash of another height, empty-square hash}, depth 5. \
+Peers are introduced in index order (symmetry). state = distinct (tracker private state via verif_snapshot, stored heights, oracle bookkeeping); transition = one operation replayed on the real tracker; \
+non-trivial state = at least one height is tracked (candidates or validated). See `searches` for per-search counts and `caps_hit` for bounds not completed.";
 
 fn main() {
     let ctx = Ctx::from_args("C40");
     let env_list = |k: &str| -> Option<Vec<u64>> { std::env::var(k).ok().map(|s| s.split(',').filter_map(|x| x.trim().parse().ok()).collect()) };
-    let mut cfg = Cfg {
-        event_heights: env_list("C40_HEIGHTS").unwrap_or(ctx.tier.pick(vec![1, 2, 11], vec![1, 2, 3, 11, 12, 13])),
-        peers: env_list("C40_PEERS").and_then(|v| v.first().copied()).unwrap_or(ctx.tier.pick(2, 3)) as u8,
-        seed: ctx.seed,
-        empty_hash_announced: std::env::var("C40_EMPTY").map(|v| v == "1").unwrap_or(!ctx.quick()),
-        other_height_hash_announced: std::env::var("C40_OTHER").map(|v| v == "1").unwrap_or(!ctx.quick()),
+    let env_u = |k: &str| -> Option<u64> { std::env::var(k).ok().and_then(|s| s.parse().ok()) };
+    let seed = ctx.seed;
+    let mk = |heights: &[u64], peers: u8, other: bool, empty: bool, depth: usize| -> (Cfg, usize) {
+        (
+            Cfg {
+                event_heights: heights.to_vec(),
+                peers,
+                seed,
+                empty_hash_announced: empty,
+                other_height_hash_announced: other,
+            },
+            depth,
+        )
     };
-    if ctx.replay.is_some() {
-        cfg.peers = 3;
-    }
-    let _ = chain(cfg.seed);
+    // (alphabet, depth bound) of every search of the tier
+    let mut searches: Vec<(Cfg, usize)> = if let Some(h) = env_list("C40_HEIGHTS") {
+        vec![mk(
+            &h,
+            env_u("C40_PEERS").unwrap_or(2) as u8,
+            env_u("C40_OTHER") == Some(1),
+            env_u("C40_EMPTY") == Some(1),
+            env_u("C40_DEPTH").unwrap_or(6) as usize,
+        )]
+    } else if ctx.quick() {
+        vec![mk(&[1, 2, 11], 2, false, false, 7)]
+    } else {
+        vec![
+            mk(&[1, 2, 11], 2, false, false, 8),
+            mk(&[3, 12, 13], 2, false, false, 8),
+            mk(&[1, 2, 3, 11, 12, 13], 3, true, true, 5),
+        ]
+    };
+    let _ = chain(seed);
     let mut rep = Report::new();
     if let Some(c) = ctx.replay_case() {
+        let (mut cfg, _) = searches.remove(0);
+        cfg.peers = 3;
         let hist: Vec<Op> = serde_json::from_value(c["history"].clone()).unwrap_or_else(|e| machinery_error("C40", &format!("bad replay history: {e}")));
         // every prefix, so that the violation is found wherever it is raised
         for n in 1..=hist.len() {
@@ -609,52 +635,64 @@ fn main() {
             }
         }
     } else {
-        let depth = std::env::var("C40_DEPTH").ok().and_then(|s| s.parse().ok()).unwrap_or(ctx.tier.pick(8, 9));
-        let bcfg = BfsConfig {
-            max_depth: depth,
-            max_states: ctx.tier.pick(1_500_000, 12_000_000),
-            wall_cap: Duration::from_secs(std::env::var("C40_WALL").ok().and_then(|s| s.parse().ok()).unwrap_or(ctx.tier.pick(50, 800))),
-            dedup: true,
-        };
         let nontrivial: Mutex<HashSet<u64>> = Mutex::new(HashSet::new());
         let with_pool = AtomicU64::new(0);
-        let init = State { hist: vec![], peers_used: 0, stored: BTreeSet::new(), dead: false };
-        let init_key = run(&cfg, &[]).key;
-        bfs(
-            init,
-            init_key,
-            &bcfg,
-            |s| ops(&cfg, s),
-            |s, o| {
-                let mut hist = s.hist.clone();
-                hist.push(o.clone());
-                let out = run(&cfg, &hist);
-                if out.nontrivial {
-                    with_pool.fetch_add(1, Ordering::Relaxed);
-                    nontrivial.lock().unwrap().insert(out.key);
-                }
-                let mut stored = s.stored.clone();
-                let mut peers_used = s.peers_used;
-                match o {
-                    Op::Boot { h } | Op::Hdr { h } => {
-                        stored.insert(*h as u64);
+        let mut per_search = vec![];
+        let t0 = std::time::Instant::now();
+        let total_wall = env_u("C40_WALL").unwrap_or(ctx.tier.pick(600, 3000));
+        for (cfg, depth) in &searches {
+            let bcfg = BfsConfig {
+                max_depth: *depth,
+                max_states: ctx.tier.pick(2_000_000, 10_000_000),
+                wall_cap: Duration::from_secs(total_wall.saturating_sub(t0.elapsed().as_secs())),
+                dedup: true,
+            };
+            let (s0, t0n) = (rep.states, rep.transitions);
+            let init = State { hist: vec![], peers_used: 0, stored: BTreeSet::new(), dead: false };
+            let init_key = run(cfg, &[]).key;
+            bfs(
+                init,
+                init_key,
+                &bcfg,
+                |s| ops(cfg, s),
+                |s, o| {
+                    let mut hist = s.hist.clone();
+                    hist.push(*o);
+                    let out = run(cfg, &hist);
+                    if out.nontrivial {
+                        with_pool.fetch_add(1, Ordering::Relaxed);
+                        nontrivial.lock().unwrap().insert(out.key);
                     }
-                    Op::Add { p, .. } => peers_used = peers_used.max(*p + 1),
-                    _ => {}
-                }
-                Step {
-                    next: State { hist, peers_used, stored, dead: out.dead },
-                    key: out.key,
-                    class: out.class,
-                    violations: out.violations,
-                }
-            },
-            &mut rep,
-        );
+                    let mut stored = s.stored.clone();
+                    let mut peers_used = s.peers_used;
+                    match o {
+                        Op::Boot { h } | Op::Hdr { h } => {
+                            stored.insert(*h as u64);
+                        }
+                        Op::Add { p, .. } => peers_used = peers_used.max(*p + 1),
+                        _ => {}
+                    }
+                    Step {
+                        next: State { hist, peers_used, stored, dead: out.dead },
+                        key: out.key,
+                        class: out.class,
+                        violations: out.violations,
+                    }
+                },
+                &mut rep,
+            );
+            per_search.push(json!({
+                "event_heights": cfg.event_heights,
+                "peers": cfg.peers,
+                "hashes": if cfg.other_height_hash_announced { "right, X, other height's, empty" } else { "right, X" },
+                "depth_bound": depth,
+                "states": rep.states - s0,
+                "transitions": rep.transitions - t0n,
+            }));
+        }
         rep.extra("distinct_nontrivial_by_construction", json!(nontrivial.lock().unwrap().len()));
         rep.extra("transitions_into_states_with_a_tracked_height", json!(with_pool.load(Ordering::Relaxed)));
-        rep.extra("depth_bound", json!(depth));
-        rep.extra("event_heights", json!(cfg.event_heights));
+        rep.extra("searches", json!(per_search));
         rep.extra("chain_data_hash_labels", json!(CHAIN));
     }
     finish(
